@@ -189,6 +189,12 @@ def compact_faults(base: Base, other: Base | None, tier, rng):
         yield "ecdsa-padded", "0000r0000s", ".".join([p64, pay64, b64u_enc(b"\0\0" + sig[:h] + b"\0\0" + sig[h:])])
         if sig[0] == 0 and sig[h] == 0:
             yield "ecdsa-stripped", "", ".".join([p64, pay64, b64u_enc(sig[1:h] + sig[h + 1:])])
+    # whitespace / padding around the token and its segments
+    for name, t in (("token+LF", base.token + "\n"), ("LF+token", "\n" + base.token), ("token+SP", base.token + " "), ("token+CRLF", base.token + "\r\n"),
+                    ("header+LF", ".".join([p64 + "\n", pay64, sig64])), ("sig+LF", ".".join([p64, pay64, sig64 + "\n"])),
+                    ("sig+pad", ".".join([p64, pay64, sig64 + "=" * ((-len(sig64)) % 4 or 4)])), ("payload+LF", ".".join([p64, pay64 + "\n", sig64])),
+                    ("token+NUL", base.token + "\x00"), ("token+dot", base.token + ".")):
+        yield "whitespace-or-padding", name, t
     yield "sig-empty", "", ".".join([p64, pay64, ""])
     yield "alg-none", "", ".".join([b64u_enc(json.dumps({**json.loads(prot), "alg": "none"}, separators=(",", ":")).encode()), pay64, ""])
     yield "alg-none", "keep-sig", ".".join([b64u_enc(json.dumps({**json.loads(prot), "alg": "none"}, separators=(",", ":")).encode()), pay64, sig64])
@@ -410,6 +416,17 @@ class Monitor:
             r = rjws.verify_json(token, resolver)
         ctx.count("arbitrations")
         key = f"accept-invalid:{family}@{ep_name}"
+        if detached is not None and isinstance(token, str) and token.split(".")[1:2] not in ([""], []):
+            # a non-empty payload segment *and* a detached payload handed over by the caller: the library verifies (and returns) the caller's
+            # payload, the reference the segment; which of the two is "the received payload" is not settled by the statement
+            try:
+                pv, _hh = result_view(ep_name, o.value)
+            except Exception:
+                pv = None
+            if pv == detached:
+                ctx.open("detached-payload-given-and-payload-segment-not-empty")
+                ctx.cell(family, ep_name, "accept-undecided")
+                return o
         if r.verdict == "REJECT" and r.klass in ("crypto", "structure", "key", "malformed"):
             ctx.violation(key, f"{ep_name} returned a token carrying fault '{family}' ({detail}); reference says REJECT: {r.reason}", case)
             ctx.cell(family, ep_name, "ACCEPT-INVALID")
